@@ -162,7 +162,7 @@ def declare(w):
                    + [("Event", h("Reply", a.self, "_result_ready"), "$set")],
                    cases=[Case("ok", post=run_post)], props=["C09"]))
     # publication order: whoever is woken by the result event (get / waitfinish) must find the outcome stored
-    w.contracts[f"{GB}:Reply.run"].at_call = {"model:Event.set": lambda a, h0, call, hnow: [
+    w.contracts[f"{GB}:Reply.run"].at_call = {"model:Event.set": lambda a, h0, call, hnow, loc=None: [
         ("outcome-stored-before-the-result-event-is-set", z3.Implies(call.self == h0("Reply", a.self, "_result_ready"), z3.Or(hnow("Reply", a.self, "$has_result"), hnow("Reply", a.self, "$has_exc"))))]}
 
     # ghost: calling the task function counts a run; setting the ready event marks the task done
@@ -343,7 +343,7 @@ def declare(w):
                    cases=[Case("ok", restype=BOOL, post=tsp_post)], props=["C09", "C14"]))
     w.contracts[f"{GB}:WorkerPool._try_send_to_primary_thread"].held_on_entry = lambda a, h: [h("WorkerPool", a.self, "_running_lock")]
     # publication order: the primary thread reads the mailbox without the lock as soon as the ready flag is up
-    w.contracts[f"{GB}:WorkerPool._try_send_to_primary_thread"].at_call = {"model:Event.set": lambda a, h0, call, hnow: [
+    w.contracts[f"{GB}:WorkerPool._try_send_to_primary_thread"].at_call = {"model:Event.set": lambda a, h0, call, hnow, loc=None: [
         ("task-in-the-mailbox-before-the-primary-thread-is-woken", z3.Implies(call.self == P(h0, a.self, "_primary_thread_task_ready"), P(hnow, a.self, "_primary_thread_task") == a.reply))]}
 
     w.add(Contract(f"{GB}:WorkerPool.trigger_shutdown", {"self": REF("WorkerPool")}, requires=has_lock, linearize_at_lock=True,
@@ -355,7 +355,7 @@ def declare(w):
                                                                           z3.And(P(h2, a.self, "_primary_thread_task") == P(h, a.self, "_primary_thread_task"),
                                                                                  h("Reply", P(h, a.self, "_primary_thread_task"), "running")))])],   # Reply.run clears `running` when the task has finished
                    props=["C09", "C11"]))
-    w.contracts[f"{GB}:WorkerPool.trigger_shutdown"].at_call = {"model:Event.set": lambda a, h0, call, hnow: [
+    w.contracts[f"{GB}:WorkerPool.trigger_shutdown"].at_call = {"model:Event.set": lambda a, h0, call, hnow, loc=None: [
         ("shutdown-flag-up-before-the-primary-thread-is-woken", z3.Implies(call.self == P(h0, a.self, "_primary_thread_task_ready"), P(hnow, a.self, "_shuttingdown")))]}
 
     def ps_post(a, h, h2, r):
@@ -424,6 +424,15 @@ def declare_primary(w):
             return v
         from pyvc.contracts import HeapView
 
+        # exactly ONE unlocked read per round is the snapshot the argument below is about (the read right after the ready flag was seen set);
+        # any further read of the mailbox outside the lock is a racy read whose value may be stale by the time it is acted upon
+        n_reads = st.ghost.get("$snapshot_reads", 0)
+        st.ghost = dict(st.ghost, **{"$snapshot_reads": n_reads + 1})
+        if n_reads >= 1:
+            ex.oblige(st, "lock", "mailbox-read-again-outside-_running_lock", z3.BoolVal(False))
+            for f in mon.protected:
+                st.heap.havoc_at(SV(REF("WorkerPool"), recv.v), f)
+            return st.heap.get(recv, "_primary_thread_task")
         for f in mon.protected:
             st.heap.havoc_at(SV(REF("WorkerPool"), recv.v), f)
         hv = HeapView(st.heap, st.held)
@@ -451,6 +460,11 @@ def declare_primary(w):
                                when=lambda a, h: z3.Or(P(h, a.self, "_primary_thread_task_ready") == 0,
                                                        z3.And(h("ExecModel", P(h, a.self, "execmodel"), "backend") != THREAD, h("ExecModel", P(h, a.self, "execmodel"), "backend") != MTO)))],
                    props=["C09", "C11", "C14"]))
+    # publication order: the ready flag is cleared only while - under the lock, at this very moment - the mailbox still holds the task just run;
+    # a decision taken before the lock was acquired may be stale (a new task may have been posted meanwhile, and its wake-up would be wiped out: C14)
+    w.contracts[f"{GB}:WorkerPool.integrate_as_primary_thread"].at_call = {"model:Event.clear": lambda a, h0, call, hnow, loc=None: [
+        ("mailbox-still-holds-the-finished-task-when-the-flag-is-cleared",
+         z3.Implies(call.self == P(h0, a.self, "_primary_thread_task_ready"), z3.And(hnow.holds(P(h0, a.self, "_running_lock")), P(hnow, a.self, "_primary_thread_task") == loc["reply"].v)))]}
     w.add_loop(LoopSpec(f"{GB}:WorkerPool.integrate_as_primary_thread", 0,
                         invariant=lambda L: [("params", z3.And(L.self == L.inp("self"), L.primary_thread_task_ready == P(L.old, L.inp("self"), "_primary_thread_task_ready"),
                                                                L.primary_thread_task_ready != 0)),
